@@ -913,6 +913,30 @@ def r14(F, R):
         R.info("C14-R14", "neither the arrow nor the ndarray backend is compiled in this configuration")
 
 
+def r15(F, R):
+    R.rule("C14-R15", "the backends agree on where the sizes of the statistics' dimensions come from: a StorageConfig::new_trace that reads the statistics' "
+                      "dimension names (Settings::stat_dims_all) takes their sizes from Settings::stat_dim_sizes - the sampler declares `unconstrained_parameter` "
+                      "itself - and not from the model's own table (Math::dim_sizes), which need not contain it: a backend that does refuses models the other "
+                      "backends accept")
+    n = 0
+    for b in sorted(F.trait_method_impls("StorageConfig", "new_trace"), key=lambda x: x.path):
+        group = [b] + K.all_closures_of(F, b.path)
+        names = {strip_generics(t["callee"].get("path", "")).split("::")[-1] for x in group for _bb, t in x.calls() if t["callee"].get("trait") and
+                 path_ends(t["callee"]["trait"], "Settings")}
+        if "stat_dims_all" not in names and "stat_dims" not in names:
+            continue
+        n += 1
+        site = "%s @%s" % (b.path, b.loc())
+        key = "%s:stat-dim-sizes" % (b.parent.get("self_adt") or b.path).split("::")[-1]
+        if "stat_dim_sizes" in names:
+            R.ok("C14-R15", key, site, "statistic dimensions are sized by Settings::stat_dim_sizes")
+        else:
+            R.bad("C14-R15", key, site, "this backend reads the statistics' dimension names but never Settings::stat_dim_sizes: the sizes are looked up in the model's "
+                  "own dimension table, where `unconstrained_parameter` need not exist (new_trace fails with `Unknown dimension`)")
+    if n == 0:
+        R.info("C14-R15", "no backend that sizes statistic arrays by dimension is compiled in this configuration")
+
+
 def _phase_flag(b):
     """The remembered phase flag of a backend: the bool field of self that record_sample clears (`self.flag = false`)."""
     for bi, blk in enumerate(b.blocks):
@@ -1146,6 +1170,7 @@ def run(F, R, config="all"):
     r10(F, R)
     r13(F, R)
     r14(F, R)
+    r15(F, R)
     # a write whose failure is dropped leaves fill values where recorded draws should be, without an error: no unread Result in the backends
     from . import c13
     def _storage_only(sub):
